@@ -143,6 +143,7 @@ def spawn_workers(pid: str, tier: str, camp: Campaign, workdir: str) -> List[Dic
     env["PYTHONHASHSEED"] = "0"
     env["PYTHONPATH"] = VERIF_ROOT + os.pathsep + env.get("PYTHONPATH", "")
     env.setdefault("HTA_VERIF", "1")
+    env.setdefault("HV_TMP", os.path.join(workdir, "tmp"))
     running: List[Tuple[int, subprocess.Popen, str, str]] = []
     while pending or running:
         while pending and len(running) < max_par:
